@@ -505,6 +505,10 @@ fn containers<C: Suite, T: Wire<C>>(vals: &[T], ctx: &mut Ctx, prims: &[Vec<u8>]
             ctx.class(format!("container/header/{}", T::NAME));
         } else {
             ctx.count(&format!("no_header/{}", T::NAME));
+            // these types carry the format version and the ciphersuite identifier (CRC-32 of the context string, recomputed here)
+            if matches!(T::NAME, "SigningNonces" | "SigningCommitments" | "SigningPackage" | "SecretShare" | "KeyPackage" | "PublicKeyPackage" | "dkg::round1::Package" | "dkg::round2::Package") {
+                ctx.viol("container-header-wrong", T::NAME, d("encoding does not start with format version 0 and this ciphersuite's identifier", json!({"expected_header": hex::encode(&hdr), "got": hex::encode(&b[..b.len().min(5)])})));
+            }
         }
         // truncations
         let is_pkp = T::NAME == "PublicKeyPackage";
